@@ -110,6 +110,17 @@ def extract():
         cap=_lru_maxsize(tsc) if tsc else 0,
     )
 
+    # results of the cached formats / properties of time objects are protected in place: `_read_only` clears the writeable flag of the
+    # very array it is given (not of a view of it) and does so for every member of a tuple result
+    ro = _func(tim, "_read_only")
+    ro_ok = False
+    if ro is not None:
+        rebinds = [n for n in ast.walk(ro) if isinstance(n, (ast.Assign, ast.AugAssign, ast.AnnAssign))
+                   and any(isinstance(t, ast.Name) for t in (n.targets if isinstance(n, ast.Assign) else [n.target]))]
+        src = ast.unparse(ro)
+        ro_ok = (not rebinds and "value.flags.writeable = False" in src and "isinstance(value, tuple)" in src
+                 and "for v in value:\n            _read_only(v)" in src and src.rstrip().endswith("return value"))
+    time["resultsFrozenInPlace"] = ro_ok
     # every lru_cache'd callable under math/ and data/
     cached = []
     for path in sorted(list((REPO / "midgard" / "math").glob("*.py")) + list((REPO / "midgard" / "data").glob("*.py"))):
@@ -253,6 +264,8 @@ def generate() -> bool:
     for k, d in rotg.items():
         out.append(f"def {k} : Flags := {_flags(d)}")
     out.append(f"def toScale : Flags := {_flags(time)}")
+    out.append("/-- `_time._read_only` freezes the array it is given, and every member of a tuple result, in place -/")
+    out.append(f"def timeResultsFrozenInPlace : Bool := {'true' if time['resultsFrozenInPlace'] else 'false'}")
     out.append("")
     out.append("/-- HashArray copies a writable argument (the cache key cannot change under the caller's hands) -/")
     out.append(f"def keyCopied : Bool := {'true' if key_copy else 'false'}")
